@@ -255,7 +255,7 @@ def gen_system(sysd):
             a = act[tl]
             lab["hash"] = sha(l["hash"], a["hash"])
             g, t = "%s_gtree_%s_%s" % (name, cid(proc), cid(tl)), "%s_ttree_%s_%s" % (name, cid(proc), cid(tl))
-            lab["g"], lab["t"] = g, t
+            lab["g"], lab["t"], lab["godef"] = g, t, l["def"]
             trees.append("Definition %s : dtree := go_body_tree %s_tla_locals %s %s_scratch %s_inst_%s %d %s.\n"
                          % (g, name, selfes[proc], name, name, cid(proc), SYMEX_FUEL, l["def"]))
             trees.append('Definition %s : dtree := tla_action_tree %s_tla_locals %s %s_scratch %d "%s" %s %s.\n'
@@ -655,37 +655,57 @@ def load_seeds(info):
 
 def scan_seeds(info, labels, log, limit=400):
     """compare both trees of the given labels ("process.label") on the stored reachable states standing at them, over all
-    small choice vectors. -> (n states scanned, [mismatch dicts], note)"""
+    small choice vectors; then on the one-step successors (TLA+ model, every small choice vector) of the seeds standing at
+    another label of the same process. -> (n states scanned, [mismatch dicts], note)"""
     name = info["name"]
     seeds, note = load_seeds(info)
-    sel = [(i, s) for i, s in enumerate(seeds) if s["label"] in labels][:limit]
+    sel = [(i, s, None) for i, s in enumerate(seeds) if s["label"] in labels][:limit]
+    procs = {l.split(".", 1)[0] for l in labels}
+    for lab in labels:
+        pr = lab.split(".", 1)[0]
+        sel += [(i, s, lab) for i, s in enumerate(seeds) if s["label"] not in labels and s["label"].split(".", 1)[0] == pr][:limit]
     if not sel:
         return 0, [], note
     e = ensure_walkdefs(info, log)
     if e:
         return 0, [], e
-    body = ["From PGV Require Import C02.Lang C02.Sem C02.Show C02.Walk %s.%s_walkdefs.\nOpen Scope string_scope.\nOpen Scope Z_scope.\n" % (GEN_NAME, name)]
-    rows = []
-    for i, sd in sel:
-        proc, lbl = sd["label"].split(".", 1)
-        body.append("Definition sd%d : gstate := %s.\n" % (i, sd["state"]))
-        rows.append('scan_seed (%s_W %d) "%s" "%s" sd%d "%d"' % (name, sd["cset"], proc, lbl, i, i))
-    body.append("Definition R := Eval vm_compute in filter (fun s => negb (String.eqb s \"\")) [%s].\nPrint R.\n" % ";\n ".join(rows))
-    rc, out, err = coq_scratch("C02_seeds_%s_%d" % (name, os.getpid()), "".join(body), timeout=900)
-    if rc != 0:
-        return 0, [], "seed scan failed: " + (out + err)[-600:]
-    flat = re.sub(r"\s+", " ", out).replace('""', '"')
+    with vlib.CoqLock():
+        if stale("C02/Scan.v", BASE_DEPS[:2] + ["C02/Show.v", "C02/Walk.v"]):
+            rc, o, er = coqc("C02/Scan.v")
+            if rc != 0:
+                return 0, [], "C02/Scan.v does not compile: " + (o + er)[-400:]
+    head = "From PGV Require Import C02.Lang C02.Sem C02.Show C02.Walk C02.Scan %s.%s_walkdefs.\nOpen Scope string_scope.\nOpen Scope Z_scope.\n" % (GEN_NAME, name)
     mism = []
-    for mm in flat.split("#@#MISMATCH")[1:]:
-        sid = int(mm.split("#@#SEEDID", 1)[1].split("#@#ENDSEED")[0].strip())
-        mm = mm.split("#@#END")[0]
-        d = {"system": name, "seed": sid, "sched": seeds[sid]["sched"], "init_rnd": seeds[sid]["init_rnd"], "cset": seeds[sid]["cset"],
-             "rnd": [], "steps": 0, "focus": []}
-        for part in mm.split("#@#"):
-            if "=" in part:
-                k, v = part.split("=", 1)
-                d[k.strip()] = v.strip()
-        mism.append(d)
+    for s0_ in range(0, len(sel), 120):
+        body, rows, done = [head], [], set()
+        for i, sd, target in sel[s0_:s0_ + 120]:
+            proc, lbl = sd["label"].split(".", 1)
+            if i not in done:
+                body.append("Definition sd%d : gstate := %s.\n" % (i, sd["state"]))
+                done.add(i)
+            if target is None:
+                rows.append('scan_seed (%s_W %d) "%s" "%s" sd%d "%d"' % (name, sd["cset"], proc, lbl, i, i))
+            else:
+                rows.append('scan_pred (%s_W %d) "%s" "%s" "%s" sd%d "%d"' % (name, sd["cset"], proc, lbl, target.split(".", 1)[1], i, i))
+        body.append("Definition R := Eval vm_compute in filter (fun s => negb (String.eqb s \"\")) [%s].\nPrint R.\n" % ";\n ".join(rows))
+        rc, out, err = coq_scratch("C02_seeds_%s_%d" % (name, os.getpid()), "".join(body), timeout=900)
+        if rc != 0:
+            return 0, [], "seed scan failed: " + (out + err)[-600:]
+        flat = re.sub(r"\s+", " ", out).replace('""', '"')
+        for mm in flat.split("#@#MISMATCH")[1:]:
+            tail = mm.split("#@#SEEDID", 1)[1].split("#@#ENDSEED")[0]
+            via = tail.split("#@#VIA", 1)[1].strip() if "#@#VIA" in tail else None
+            sid = int(tail.split("#@#VIA")[0].strip())
+            mm = mm.split("#@#END")[0]
+            d = {"system": name, "seed": sid, "sched": seeds[sid]["sched"] + ([via] if via else []), "init_rnd": seeds[sid]["init_rnd"],
+                 "cset": seeds[sid]["cset"], "rnd": [], "steps": 0, "focus": []}
+            for part in mm.split("#@#"):
+                if "=" in part:
+                    k, v = part.split("=", 1)
+                    d[k.strip()] = v.strip()
+            mism.append(d)
+        if mism:
+            break
     return len(sel), mism, note
 
 
@@ -858,3 +878,50 @@ def _prod(xs):
     for x in xs:
         p *= x
     return p
+
+
+# ---------------------------------------------------------------- run o symex_go against the direct interpreter (coq/C02/Direct.v)
+
+def direct_walks(info, sysd, rnds, steps, log):
+    """walks of the TLA+ model; at every attempt the symbolic semantics of the Go body is compared with the direct
+    environment-passing interpreter. -> (agree, agree-up-to-eager-error, [disagreement dicts], error)"""
+    name = info["name"]
+    e = ensure_walkdefs(info, log)
+    if e:
+        return 0, 0, [], e
+    with vlib.CoqLock():
+        for rel, deps in [("C02/Direct.v", BASE_DEPS[:2]), ("C02/DirectWalk.v", BASE_DEPS[:2] + ["C02/Show.v", "C02/Walk.v", "C02/Direct.v"])]:
+            if stale(rel, deps):
+                rc, o, er = coqc(rel)
+                if rc != 0:
+                    return 0, 0, [], "%s does not compile: %s" % (rel, (o + er)[-500:])
+    procs = {}
+    for l in info["labels"]:
+        if "godef" in l:
+            procs.setdefault(l["proc"], []).append('("%s", %s)' % (l["tla_action"], l["godef"]))
+    btab = "; ".join('("%s", (%s_inst_%s, [%s]))' % (p, name, cid(p), "; ".join(rows)) for p, rows in procs.items())
+    ncs = 1 + len(sysd.get("alt_constants", []))
+    body = ("From PGV Require Import C02.Lang C02.Sem C02.Show C02.Walk C02.Direct C02.DirectWalk C02.Bind_%s %s.%s_go %s.%s_tla %s.%s_trees %s.%s_walkdefs.\n"
+            "Open Scope string_scope.\nDefinition B : btable := [%s].\n" % (name, GEN_NAME, name, GEN_NAME, name, GEN_NAME, name, GEN_NAME, name, btab))
+    body += "Definition R := Eval vm_compute in map (fun rnd => one_dwalk %d (%s_W (Nat.modulo (N.to_nat (hd 0%%N rnd)) %d)) %s_tla_locals B (map N.to_nat rnd)) [%s]%%N.\nPrint R.\n" % (
+        steps, name, ncs, name, ";\n ".join("[" + "; ".join(str(x) for x in r) + "]" for r in rnds))
+    rc, out, err = coq_scratch("C02_direct_%s_%d" % (name, os.getpid()), body, timeout=1500)
+    if rc != 0:
+        return 0, 0, [], "direct-interpreter comparison of %s failed: %s" % (name, (out + err)[-600:])
+    flat = re.sub(r"\s+", " ", out).replace('""', '"')
+    agree = lazy = 0
+    bad = []
+    for rep in flat.split("#@#ENDDW")[:-1]:
+        m = re.search(r"#@#COUNTS (\d+) (\d+)", rep)
+        if m:
+            agree += int(m.group(1))
+            lazy += int(m.group(2))
+        for mm in rep.split("#@#DIRECT")[1:]:
+            mm = mm.split("#@#END")[0]
+            d = {"system": name}
+            for part in mm.split("#@#"):
+                if "=" in part:
+                    k, v = part.split("=", 1)
+                    d[k.strip()] = v.strip()
+            bad.append(d)
+    return agree, lazy, bad, None
